@@ -89,25 +89,28 @@ func (ci *inlineCallee) node() ast.Node {
 }
 
 type inliner struct {
-	p          *Program
-	pk         *packages.Package
-	src        map[string][]byte // file name -> bytes of this round's starting snapshot
-	callees    map[*types.Func]*inlineCallee
-	closures   map[*types.Var]*inlineCallee
-	onlyCaller func(caller *ast.FuncDecl) bool
-	sites      map[*types.Func]int // static call sites per callee
-	seq        int
-	round      int
-	only       func(callee *types.Func, caller *ast.FuncDecl) bool
-	edits      map[string][]textEdit
-	imports    map[string]map[string]string // file -> name -> path to add
-	N          int
-	Deleted    int
-	Skipped    map[string]int
-	tail       bool                      // the statement being looked at is the last one of a function body
-	consumed   map[string][][2]token.Pos // source ranges replaced as a whole: statements inside them are left alone
-	inlined    map[*types.Func]int
-	valRefs    map[*types.Func]bool // referenced other than as the function of a call
+	p              *Program
+	pk             *packages.Package
+	src            map[string][]byte // file name -> bytes of this round's starting snapshot
+	callees        map[*types.Func]*inlineCallee
+	closures       map[*types.Var]*inlineCallee
+	onlyCaller     func(caller *ast.FuncDecl) bool
+	sites          map[*types.Func]int // static call sites per callee
+	seq            int
+	round          int
+	only           func(callee *types.Func, caller *ast.FuncDecl) bool
+	edits          map[string][]textEdit
+	imports        map[string]map[string]string // file -> name -> path to add
+	N              int
+	Deleted        int
+	Skipped        map[string]int
+	tail           bool                      // the statement being looked at is the last one of a function body
+	consumed       map[string][][2]token.Pos // source ranges replaced as a whole: statements inside them are left alone
+	closureInlined map[*types.Var]int
+	closureCalls   map[*types.Var]int
+	closureDef     map[*types.Var]ast.Node // the defining statement
+	inlined        map[*types.Func]int
+	valRefs        map[*types.Func]bool // referenced other than as the function of a call
 }
 
 func (p *Program) rootPackage() *packages.Package {
@@ -144,7 +147,7 @@ func (p *Program) inlineRoundC(round int, only func(callee *types.Func, caller *
 		return nil, 0, fmt.Errorf("root package not loaded")
 	}
 	in := &inliner{p: p, pk: pk, src: map[string][]byte{}, callees: map[*types.Func]*inlineCallee{}, closures: map[*types.Var]*inlineCallee{}, sites: map[*types.Func]int{}, round: round, only: only,
-		onlyCaller: onlyCaller, edits: map[string][]textEdit{}, imports: map[string]map[string]string{}, Skipped: map[string]int{}, inlined: map[*types.Func]int{}, valRefs: map[*types.Func]bool{}, consumed: map[string][][2]token.Pos{}}
+		onlyCaller: onlyCaller, edits: map[string][]textEdit{}, imports: map[string]map[string]string{}, Skipped: map[string]int{}, inlined: map[*types.Func]int{}, valRefs: map[*types.Func]bool{}, consumed: map[string][][2]token.Pos{}, closureInlined: map[*types.Var]int{}, closureCalls: map[*types.Var]int{}, closureDef: map[*types.Var]ast.Node{}}
 	for _, f := range pk.Syntax {
 		name := p.Fset.Position(f.Pos()).Filename
 		if strings.HasSuffix(name, "_test.go") {
@@ -195,6 +198,50 @@ func (p *Program) inlineRoundC(round int, only func(callee *types.Func, caller *
 			}
 			in.edits[name] = append(kept, textEdit{so, eo, blank})
 			in.Deleted++
+		}
+	}
+	// closures all of whose calls were inlined: the definition goes (its captures would keep the captured variables
+	// in cells), and with it the uses written at the call sites
+	deadClosure := map[string]bool{}
+	for v, n := range in.closureInlined {
+		def, ok := in.closureDef[v].(*ast.AssignStmt)
+		if !ok || n != in.closureCalls[v] || noDelete {
+			continue
+		}
+		name := p.Fset.Position(def.Pos()).Filename
+		so, eo := p.Fset.Position(def.Pos()).Offset, p.Fset.Position(def.End()).Offset
+		overlap := false
+		for _, e := range in.edits[name] {
+			if e.start < eo && e.end > so {
+				overlap = true
+			}
+		}
+		if overlap {
+			continue
+		}
+		in.edits[name] = append(in.edits[name], textEdit{so, eo, strings.Repeat("\n", strings.Count(string(in.src[name][so:eo]), "\n"))})
+		deadClosure[name+"|"+v.Name()] = true
+	}
+	for name, eds := range in.edits {
+		for k := range eds {
+			t := eds[k].text
+			for {
+				a := strings.Index(t, "\x00USE:")
+				if a < 0 {
+					break
+				}
+				b := strings.Index(t[a+1:], "\x00")
+				if b < 0 {
+					break
+				}
+				vn := t[a+5 : a+1+b]
+				rep := "_ = " + vn
+				if deadClosure[name+"|"+vn] {
+					rep = ""
+				}
+				t = t[:a] + rep + t[a+1+b+1:]
+			}
+			eds[k].text = t
 		}
 	}
 	if os.Getenv("RESTCHECK_TRACE_FORMS") != "" {
@@ -406,6 +453,7 @@ func (in *inliner) collectClosures() {
 						if fl, ok := ast.Unparen(x.Rhs[0]).(*ast.FuncLit); ok {
 							if v, ok := info.Defs[id].(*types.Var); ok {
 								cand[v] = fl
+								in.closureDef[v] = x
 								return true
 							}
 						}
@@ -456,6 +504,9 @@ func (in *inliner) collectClosures() {
 		for id, obj := range info.Uses {
 			if v, ok := obj.(*types.Var); ok && cand[v] != nil && !callFun[id] && !blankUse[id] {
 				bad[v] = true
+			}
+			if v, ok := obj.(*types.Var); ok && cand[v] != nil && callFun[id] {
+				in.closureCalls[v]++
 			}
 		}
 		for v, fl := range cand {
@@ -1181,6 +1232,12 @@ func (in *inliner) inlineAt(f *ast.File, fname string, caller *ast.FuncDecl, ins
 		sb.WriteString("var " + resNames[k] + " " + resTypes[k] + "\n")
 	}
 	sb.WriteString("{\n")
+	if ci.lit != nil {
+		// the variable would otherwise be unused once all its calls are gone (the line is dropped together with
+		// the definition when every call was inlined)
+		sb.WriteString("\x00USE:" + ci.litVar.Name() + "\x00\n")
+		in.closureInlined[ci.litVar]++
+	}
 	if sig.Recv() != nil {
 		rf := ci.decl.Recv.List[0]
 		rname := "_"
